@@ -116,18 +116,37 @@ func (c *Encoder) encodeStruct(v reflect.Value) {
 
 	vtyp := v.Type()
 
+	// fields tagged with the same flag bit are one conditional group: the group is present when at least one of
+	// its fields is non-zero, and then the decoder expects every field of it, zero-valued ones included. so the
+	// flags word must be known before deciding which fields are written.
 	for i := 0; i < v.NumField(); i++ {
-		// THIS PART is appending to object meta value, that actually don't writing in real encodeValue
-		if hasFlagsField && flagIndex == i {
-			tmpObjects = append(tmpObjects, reflect.ValueOf(0))
-		}
-
 		info, err := parseTag(vtyp.Field(i).Tag)
 		if err != nil {
 			c.err = errors.Wrapf(err, "parsing tag of field %v", vtyp.Field(i).Name)
 			return
 		}
 
+		if info == nil || info.ignore {
+			continue
+		}
+
+		if info.encodedInBitflag && vtyp.Field(i).Type.Kind() != reflect.Bool {
+			c.err = fmt.Errorf("field '%s': only bool values can be encoded in bitflag", vtyp.Field(i).Name)
+			return
+		}
+
+		if !v.Field(i).IsZero() {
+			flag |= 1 << info.index
+		}
+	}
+
+	for i := 0; i < v.NumField(); i++ {
+		// THIS PART is appending to object meta value, that actually don't writing in real encodeValue
+		if hasFlagsField && flagIndex == i {
+			tmpObjects = append(tmpObjects, reflect.ValueOf(0))
+		}
+
+		info, _ := parseTag(vtyp.Field(i).Tag) // tag errors are reported by the loop above
 		if info == nil {
 			// если тега нет, то это обязательное поле, значит 100% записываем
 			tmpObjects = append(tmpObjects, v.Field(i))
@@ -138,23 +157,12 @@ func (c *Encoder) encodeStruct(v reflect.Value) {
 			continue
 		}
 
-		if info.encodedInBitflag && vtyp.Field(i).Type.Kind() != reflect.Bool {
-			c.err = fmt.Errorf("field '%s': only bool values can be encoded in bitflag", vtyp.Field(i).Name)
-			return
-		}
-
-		fieldVal := v.Field(i)
-		if !fieldVal.IsZero() {
-			// тег есть, это 100% опциональное поле
-			flag |= 1 << info.index
-			if info.encodedInBitflag {
-				continue
-			}
-
-			tmpObjects = append(tmpObjects, v.Field(i))
-
+		// тег есть, это 100% опциональное поле: пишем его только если его группа присутствует
+		if flag&(1<<info.index) == 0 || info.encodedInBitflag {
 			continue
 		}
+
+		tmpObjects = append(tmpObjects, v.Field(i))
 	}
 
 	for i, elem := range tmpObjects {
